@@ -1134,3 +1134,100 @@ where
     }
 //@ end
 }
+
+impl<N, E, Ty, Ix> StableGraph<N, E, Ty, Ix>
+where
+    Ty: EdgeType,
+    Ix: IndexType,
+{
+//@ item src/graph_impl/stable_graph/mod.rs | impl<N, E, Ty, Ix> StableGraph<N, E, Ty, Ix> where Ty: EdgeType, Ix: IndexType | fn node_weight
+    /// Access the weight for node `a`.
+    ///
+    /// Also available with indexing syntax: `&graph[a]`.
+    pub fn node_weight(&self, a: NodeIndex<Ix>) -> (r: Option<&N>)
+        /*+*/ensures r is Some <==> nlive(self.ns(), a.i()),                      // [node_weight_none_iff_absent_or_vacant]
+            r is Some ==> Some(*r.unwrap()) == self.view().nodes[a.i()]/*-*/,       // [node_weight_view]
+    {
+        match self.g.nodes.get(a.index()) {
+            Some(no) => no.weight.as_ref(),
+            None => None,
+        }
+    }
+//@ end
+
+//@ item src/graph_impl/stable_graph/mod.rs | impl<N, E, Ty, Ix> StableGraph<N, E, Ty, Ix> where Ty: EdgeType, Ix: IndexType | fn edge_weight
+    /// Access the weight for edge `e`.
+    ///
+    /// Also available with indexing syntax: `&graph[e]`.
+    pub fn edge_weight(&self, e: EdgeIndex<Ix>) -> (r: Option<&E>)
+        /*+*/ensures r is Some <==> elive(self.es(), e.i()),                      // [edge_weight_none_iff_absent_or_vacant]
+            r is Some ==> Some(*r.unwrap()) == self.es()[e.i()].weight/*-*/,        // [edge_weight_view]
+    {
+        match self.g.edges.get(e.index()) {
+            Some(ed) => ed.weight.as_ref(),
+            None => None,
+        }
+    }
+//@ end
+
+//@ item src/graph_impl/stable_graph/mod.rs | impl<N, E, Ty, Ix> StableGraph<N, E, Ty, Ix> where Ty: EdgeType, Ix: IndexType | fn add_edge
+    /// Add an edge from `a` to `b` to the graph, with its associated
+    /// data `weight`.
+    #[track_caller]
+    pub fn add_edge(&mut self, a: NodeIndex<Ix>, b: NodeIndex<Ix>, weight: E) -> (r: EdgeIndex<Ix>)
+        /*+*/requires old(self).wf(), old(self).edge_count < usize::MAX,
+            nlive(old(self).ns(), a.i()) && nlive(old(self).ns(), b.i()),                                                        // [add_edge_panics_iff_node_missing]
+            !(old(self).free_edge.i() == end_ix::<Ix>() && end_ix::<Ix>() != usize::MAX && old(self).es().len() == end_ix::<Ix>()),   // [add_edge_panics_iff_full]
+        ensures final(self).wf(), !elive(old(self).es(), r.i()),
+            final(self).view() == old(self).view().add_edge_at(r.i(), a.i(), b.i(), weight)/*-*/,     // [add_edge_view]
+    {
+        let res = self.try_add_edge(a, b, weight);
+        if let Err(GraphError::NodeMissed(i)) = res {
+            panic!(
+                "StableGraph::add_edge: node index {} is not a node in the graph",
+                i
+            );
+        }
+        res.unwrap()
+    }
+//@ end
+
+//@ item src/graph_impl/stable_graph/mod.rs | impl<N, E, Ty, Ix> StableGraph<N, E, Ty, Ix> where Ty: EdgeType, Ix: IndexType | fn clear
+    /// Remove all nodes and edges
+    pub fn clear(&mut self)
+        /*+*/ensures final(self).wf(), final(self).ns().len() == 0, final(self).es().len() == 0, final(self).node_count == 0, final(self).edge_count == 0/*-*/,   // [clear_empty]
+    {
+        self.node_count = 0;
+        self.edge_count = 0;
+        self.free_node = NodeIndex::end();
+        self.free_edge = EdgeIndex::end();
+        self.g.clear();
+        /*+*/proof {
+            let e = Seq::<Seq<int>>::empty(); let n = Seq::<int>::empty();
+            assert(self.wf_with(e, e, n, n, -1));
+            self.lemma_wf_unique(e, e, n, n, -1);
+        }/*-*/
+    }
+//@ end
+
+//@ item src/graph_impl/stable_graph/mod.rs | impl<N, E, Ty, Ix> StableGraph<N, E, Ty, Ix> where Ty: EdgeType, Ix: IndexType | fn with_capacity
+    /// Create a new `StableGraph` with estimated capacity.
+    pub fn with_capacity(nodes: usize, edges: usize) -> (r: Self)
+        /*+*/ensures r.wf(), r.ns().len() == 0, r.es().len() == 0, r.node_count == 0, r.edge_count == 0/*-*/,   // [new_is_empty]
+    {
+        /*+*/let r = {/*-*/ StableGraph {
+            g: Graph::with_capacity(nodes, edges),
+            node_count: 0,
+            edge_count: 0,
+            free_node: NodeIndex::end(),
+            free_edge: EdgeIndex::end(),
+        } /*+*/};
+        proof {
+            let e = Seq::<Seq<int>>::empty(); let n = Seq::<int>::empty();
+            assert(r.wf_with(e, e, n, n, -1));
+            r.lemma_wf_unique(e, e, n, n, -1);
+        }
+        r/*-*/
+    }
+//@ end
+}
